@@ -126,7 +126,7 @@ func (w *World) emitHooks(step int, rpc string) error {
 				"ev": "PP", "step": step, "rpc": rpc, "c": cname, "d": d, "sess": sess,
 				"req": data["req"], "status": data["status"], "pushonly": data["pushonly"],
 				"gcoff": data["gcoff"], "nopres": data["nopres"], "ci": data["ci"],
-				"rows": []any{}, "created": false, "seq": 0, "epoch": 0, "cpc": 0,
+				"rows": []any{}, "created": false, "seq": 0, "epoch": 0, "cpc": 0, "vvset": false, "concurrent": false, "rid": "",
 				"init": -1, "hasmin": false, "min": map[string]any{},
 				"docremoved": false, "nopresdoc": false,
 			}
@@ -140,6 +140,10 @@ func (w *World) emitHooks(step int, rpc string) error {
 		case "pp.pull.after":
 			if pp := open[he.GID]; pp != nil {
 				pp["init"] = data["init"]
+			}
+		case "db.vv.between":
+			if pp := open[he.GID]; pp != nil {
+				pp["vvset"] = true
 			}
 		case "pp.vv.after":
 			if pp := open[he.GID]; pp != nil {
